@@ -583,6 +583,30 @@ func runVersion() {
 	}
 	runInfo(fmt.Sprintf("QR version information, versions %v: (%s in one copy) x (2 fixed disjoint triples in the other), both ways", vs, pickS("ALL 816 triples", "ALL 988 subsets of <=3 bits")), jobs)
 
+	// 5e: EVERY version 7..40 in both tiers: three flips in BOTH copies, the triples taken from two
+	// partitions of the 18 bits into six disjoint triples ({0,1,2},{3,4,5},... and the same shifted by
+	// one). Whatever bit set a wrong entry of the decoder's version table differs in, some pair of
+	// triples is at distance >= 4 from it in both copies while staying within the promised 3 flips
+	// of the true word, so a single wrong table row on ANY version fails here (found necessary by a
+	// seeded change that transposed two digits of the version-30 entry).
+	jobs = nil
+	var part [][]int
+	for shift := 0; shift < 2; shift++ {
+		for t := 0; t < 6; t++ {
+			part = append(part, []int{(3*t + shift) % 18, (3*t + 1 + shift) % 18, (3*t + 2 + shift) % 18})
+		}
+	}
+	var allv []int
+	for v := 7; v <= 40; v++ {
+		allv = append(allv, v)
+		s := qrMain[v][(v+3)%4]
+		if s == nil {
+			continue
+		}
+		jobs = split(jobs, infoJob{s: s, kind: 2, as: part, bs: part, expect: "exact", sub: "qr/version-info/every-version"})
+	}
+	runInfo("QR version information, EVERY version 7..40: all ordered pairs of 12 triples (two partitions of the 18 bits into disjoint triples), one triple flipped in each copy", jobs)
+
 	// 5d: one copy obliterated (all light / all dark / inverted), the other with few flips
 	jobs = nil
 	vs = pickVersions([]int{7, 8, 20, 33, 40}, 7)
